@@ -499,6 +499,7 @@ def run_check(prop, tier, seed, jobs=16, only=None, scale=1.0):
     # 5. witnesses of known findings and regression replays of fixed ones
     known_lines = []
     regress_fail = []
+    known_matcher = Known(mod)
     for e in known_data.get("findings", []):
         if e["property"] != prop:
             continue
@@ -527,6 +528,9 @@ def run_check(prop, tier, seed, jobs=16, only=None, scale=1.0):
             outs = replay_case(mod, w["target"], w["cfg"], unjson(w["case"]), times=3)
             evaluations += 1
             if all(o is not None for o in outs):
+                # a witness that now only trips over a DIFFERENT, listed known finding is not a regression
+                if known_matcher.match(w["target"], w["cfg"], unjson(w["case"]), outs[0]) is not None:
+                    continue
                 regress_fail.append((os.path.join(rdir, fn), w, outs[0]))
 
     for line in known_lines:
